@@ -368,10 +368,6 @@ func (this *partition) updateValue(notificationId uuid.UUID, id uuid.UUID, value
 		this.notificator.Notify(notificationId, err, false)
 		return nil
 	}
-	if err := this.index.Remove(id); err != nil {
-		this.notificator.Notify(notificationId, err, false)
-		return nil
-	}
 	if metadata == nil {
 		metadata = make(index.Metadata)
 	}
@@ -379,6 +375,15 @@ func (this *partition) updateValue(notificationId uuid.UUID, id uuid.UUID, value
 		if _, exists := metadata[k]; !exists {
 			metadata[k] = v
 		}
+	}
+	// Keys accumulate over updates: the merged metadata must still fit the snapshot encoding
+	if err := metadata.Validate(); err != nil {
+		this.notificator.Notify(notificationId, err, false)
+		return nil
+	}
+	if err := this.index.Remove(id); err != nil {
+		this.notificator.Notify(notificationId, err, false)
+		return nil
 	}
 	err = this.index.Insert(id, value, metadata, vertex.Level())
 	this.notificator.Notify(notificationId, err, false)
@@ -418,10 +423,6 @@ func (this *partition) batchUpdateValue(notificationId uuid.UUID, items []*pb.Ba
 			errors[id] = err
 			continue
 		}
-		if err := this.index.Remove(id); err != nil {
-			errors[id] = err
-			continue
-		}
 		metadata := item.GetMetadata()
 		if metadata == nil {
 			metadata = make(map[string]string)
@@ -430,6 +431,14 @@ func (this *partition) batchUpdateValue(notificationId uuid.UUID, items []*pb.Ba
 			if _, exists := metadata[k]; !exists {
 				metadata[k] = v
 			}
+		}
+		if err := index.Metadata(metadata).Validate(); err != nil {
+			errors[id] = err
+			continue
+		}
+		if err := this.index.Remove(id); err != nil {
+			errors[id] = err
+			continue
 		}
 		if err := this.index.Insert(id, item.GetValue(), metadata, vertex.Level()); err != nil {
 			errors[id] = err
